@@ -91,6 +91,10 @@ where
             let direct = lib!(tag.evaluate(x));
             let stateful = lib!(ev.evaluate(x));
             if x.is_nan() {
+                // no model value for NaN, but the routes must agree with each other
+                if !same_bits(direct, stateful) {
+                    fail!("{tyname}::arbitrary value with ends {:?}: for a NaN argument direct evaluation uses segment {} but the stateful evaluator segment {} (phase {phase})", ends, direct, stateful);
+                }
                 continue;
             }
             let m = select(&ends, x) as f64;
@@ -113,6 +117,15 @@ where
         ctx.comparisons += 1;
         if !same_bits(batch[i], m) {
             fail!("{tyname}::arbitrary value with ends {:?}: evaluate_v at x={} uses segment {} but the selection model says {}", ends, hex(x), batch[i], m);
+        }
+    }
+    // NaN through evaluate_v: same segment as direct evaluation
+    {
+        let nan = f64::NAN;
+        let d0 = lib!(tag.evaluate(nan));
+        let b0: Vec<f64> = lib!(tag.evaluate_v(vec![nan]).collect());
+        if b0.len() != 1 || !same_bits(b0[0], d0) {
+            fail!("{tyname}::arbitrary value with ends {:?}: for a NaN argument direct evaluation uses segment {} but evaluate_v {:?}", ends, d0, b0);
         }
     }
     // NaN through evaluate_v and the original (arbitrary, possibly NaN-coefficient) function: panic-freedom only
@@ -141,7 +154,7 @@ impl Prop for C19 {
         "C19"
     }
     fn rule(&self) -> String {
-        "case = (T in {Poly0, Poly3, Poly8, PolyN, Piecewise<Poly1> (a piece type whose own Arbitrary can fail)}; byte string). Byte strings are (a) CONSTRUCTED with the wire layout Vec<f64>::arbitrary reads (continuation byte, 8 little-endian bytes per element) so that they decode to chosen end lists — normal random ends in any order incl. descending, many duplicates, empty list, lists containing NaN / ±inf / subnormal / ±0 ends — followed by random piece bytes, and truncated at a random position (so the input runs out while ends or pieces are read), or (b) uniformly random bytes of length 0..200. Oracle: the call never panics; Err is always acceptable; Ok(pw) must have >=1 segment, every end is_normal(), ends non-decreasing; then a tag copy (same ends, Poly0(i)) is evaluated over its whole alphabet incl. 5 NaN payloads directly, through one PiecewiseEvaluator (alphabet ascending, then descending, then interleaved extremes) and through evaluate_v (ascending): no panic, and for non-NaN arguments the same segment index from all three and from the selection model; the original value is evaluated the same three ways for panic-freedom. Non-trivial: Ok with >=2 segments.".into()
+        "case = (T in {Poly0, Poly3, Poly8, PolyN, Piecewise<Poly1> (a piece type whose own Arbitrary can fail)}; byte string). Byte strings are (a) CONSTRUCTED with the wire layout Vec<f64>::arbitrary reads (continuation byte, 8 little-endian bytes per element) so that they decode to chosen end lists — normal random ends in any order incl. descending, many duplicates, empty list, lists containing NaN / ±inf / subnormal / ±0 ends — followed by random piece bytes, and truncated at a random position (so the input runs out while ends or pieces are read), or (b) uniformly random bytes of length 0..200. Oracle: the call never panics; Err is always acceptable; Ok(pw) must have >=1 segment, every end is_normal(), ends non-decreasing; then a tag copy (same ends, Poly0(i)) is evaluated over its whole alphabet incl. 5 NaN payloads directly, through one PiecewiseEvaluator (alphabet ascending, then descending, then interleaved extremes) and through evaluate_v (ascending): no panic, for non-NaN arguments the same segment index from all three and from the selection model, and for NaN arguments the same segment from all three routes; the original value is evaluated the same three ways for panic-freedom. Non-trivial: Ok with >=2 segments.".into()
     }
     fn cases(&self, tier: Tier) -> u64 {
         tier.pick(1_000_000, 10_000_000)
@@ -150,7 +163,7 @@ impl Prop for C19 {
         let normal = prop_oneof![3 => gen::scaled(-8, 8), 1 => gen::scaled(-1022, 1023), 1 => gen::from_table(&[1.0, -1.0, 2.0, f64::MAX, -f64::MAX, f64::MIN_POSITIVE, -f64::MIN_POSITIVE, 1.0000000000000002])];
         let structured = (
             0u8..6,
-            vec(normal, 0..10),
+            prop_oneof![9 => vec(normal.clone(), 0..10), 1 => vec(normal, 10..48)],
             vec((0..END_SPECIALS.len(), any::<u16>()), 0..3),
             vec(any::<u8>(), 0..120),
             any::<u8>(),
